@@ -101,8 +101,8 @@ def build_groups(rng, tier):
                 span = ax[-1] - ax[0]
                 if S == "F":
                     v = rng.choice([vlib.next_up(ax[-1]), vlib.next_down(ax[0]), ax[-1] + span * 1e-13, ax[0] - span * 1e-13,
-                                    ax[-1] + span, ax[0] - span / 3])
-                    return v if (v > ax[-1] or v < ax[0]) else vlib.next_up(ax[-1])
+                                    ax[-1] + span, ax[0] - span / 3] + ([] if ext2 else [float("nan"), float("inf"), float("-inf")]))
+                    return v if (v != v or v > ax[-1] or v < ax[0]) else vlib.next_up(ax[-1])
                 return rng.choice([ax[-1] + Fr(1, 10 ** 14), ax[0] - Fr(1, 10 ** 14), ax[-1] + span, ax[0] - span / 3])
             if ext2 and nq >= 1:
                 for k_ in range(nq):
